@@ -5,7 +5,9 @@ stdin: JSON list of cases {'rules': [[level, pattern], ...], 'queries': [query, 
 stdout: JSON list (one per case) of lists (one per query, in order, same System = same cache) of
    [fullName, name, has_kind, is_module, result]   result = [0, level] | [1, errcode]
 level: 0 HIDDEN, 1 PRIVATE, 2 PUBLIC.  errcode as in c13_qnmatch.py.
-Special case {'objects': 1} -> [[fullName, name, is_module], ...] of the fixed System."""
+Special case {'objects': 1} -> [[fullName, name, is_module], ...] of the fixed System.
+An optional key 'system': 'main' (default) | 'shapes' selects the System: 'shapes' holds functions, classes, methods,
+attributes, class attributes and modules whose short names enumerate every underscore shape."""
 import json, re, sys, warnings
 warnings.simplefilter('ignore')
 from pydoctor import model
@@ -24,6 +26,35 @@ MODULES = [
     ('_p = 1\n', 'Cls', None, False),
 ]
 
+
+def shape_names():
+    """every short-name shape: {0,1,2,3 leading underscores} x {0,1,2,3 trailing underscores} x {empty, non-empty core}"""
+    out = []
+    for lead in range(4):
+        for trail in range(4):
+            for core in ('', 'x'):
+                n = '_' * lead + core + '_' * trail
+                if n and n not in out:
+                    out.append(n)
+    return out
+
+
+def shape_modules():
+    names = shape_names()
+    mods = [('', 'shp', None, True)]
+    mods.append((''.join('def %s(): pass\n' % n for n in names), 'funcs', 'shp', False))
+    mods.append((''.join('class %s: pass\n' % n for n in names), 'classes', 'shp', False))
+    mods.append((''.join('%s = 1\n' % n for n in names), 'attrs', 'shp', False))
+    mods.append(('class K:\n' + ''.join('    def %s(self): pass\n' % n for n in names), 'meths', 'shp', False))
+    mods.append(('class K:\n' + ''.join('    %s = 1\n' % n for n in names), 'cattrs', 'shp', False))
+    mods.append(('', 'mods', 'shp', True))
+    for n in names:
+        mods.append(('', n, 'shp.mods', False))
+    return mods
+
+
+SYSTEMS = {'main': lambda: MODULES, 'shapes': shape_modules}
+
 LEVEL = {model.PrivacyClass.HIDDEN: 0, model.PrivacyClass.PRIVATE: 1, model.PrivacyClass.PUBLIC: 2}
 
 
@@ -35,11 +66,11 @@ def errcode(e):
     return [9, type(e).__name__]
 
 
-def build(rules):
+def build(rules, which='main'):
     s = model.System()
     s.options.privacy = [(model.PrivacyClass(l), p) for l, p in rules]
     b = s.systemBuilder(s)
-    for src, name, parent, ispkg in MODULES:
+    for src, name, parent, ispkg in SYSTEMS[which]():
         b.addModuleString(src, name, parent_name=parent, is_package=ispkg)
     b.buildModules()
     return s
@@ -47,9 +78,9 @@ def build(rules):
 
 def run_case(c):
     if 'objects' in c:
-        s = build([])
+        s = build([], c.get('system', 'main'))
         return [[o.fullName(), o.name, int(isinstance(o, model.Module))] for o in s.allobjects.values()]
-    s = build(c['rules'])
+    s = build(c['rules'], c.get('system', 'main'))
     out = []
     for q in c['queries']:
         if q[0] == 'obj':
